@@ -59,7 +59,7 @@ def run_standard(mod, tier: str) -> int:
     modules = [m for m in modules if os.path.exists(os.path.join(common.LEAN_DIR, *m.split(".")) + ".lean")]
     theorems = theorems_of(modules)
     run.prep = framework.prepare(modules, theorems, with_dtypes=getattr(mod, "NEEDS_DTYPES", True))
-    run.check_obligations(modules, theorems)
+    run.check_obligations(modules, theorems, getattr(mod, "GENERATED", None))
     if hasattr(mod, "custom"):
         mod.custom(run, tier)
     if hasattr(mod, "cases"):
